@@ -339,13 +339,13 @@ func Behaviour(r *rand.Rand, o Opts) *cfg.Config {
 	g.big = g.chance(o.BigProb)
 	// meta
 	if !o.MainPkg {
-		c.Meta.Pkg = cfg.P(choose(g, "gen", "pk", "container", "di"))
+		c.Meta.Pkg = cfg.P(choose(g, "gen", "pk", "container", "di", "fmt", "context", "errors", "reflect", "caller", "exporter", "x_1"))
 	}
 	if g.chance(0.3) {
-		c.Meta.ContainerType = cfg.P(choose(g, "Ctr", "myContainer", "DI", "Gontainer2"))
+		c.Meta.ContainerType = cfg.P(choose(g, "Ctr", "myContainer", "DI", "Gontainer2", "Container2", "T", "Service", "Err"))
 	}
 	if g.chance(0.3) {
-		c.Meta.ContainerConstructor = cfg.P(choose(g, "Build", "NewCtr", "NewDI", "Make_It"))
+		c.Meta.ContainerConstructor = cfg.P(choose(g, "Build", "NewCtr", "NewDI", "Make_It", "NewService", "Get", "String"))
 	}
 	if g.chance(0.5) {
 		c.Meta.DefaultMustGetter = cfg.P(g.chance(0.5))
@@ -586,10 +586,17 @@ func (g *G) plainStringNoPct() string {
 func (g *G) service(name string, before, params []string) cfg.Service {
 	s := cfg.Service{Name: name}
 	o := g.O
-	if o.Fail && g.chance(0.05) {
+	todoFull := false
+	if o.Fail && g.chance(0.06) {
 		s.Todo = cfg.P(true)
-		return s
+		if g.chance(0.5) {
+			return s
+		}
+		// a placeholder that still carries a complete definition (the common way of switching a service off for a while):
+		// everything but the name and the declared scope is ignored
+		todoFull = true
 	}
+	_ = todoFull
 	pkg := g.anyPkg()
 	isObj := true // calls/fields are possible
 	switch k := g.pick(20); {
